@@ -224,10 +224,17 @@ func registerModels() {
 			return len(buf)
 		},
 		"(*strings.Builder).Grow": func(fr *frame, args []value) value {
-			if concInt(args[1]) < 0 {
+			neg := false
+			if sx, ok := args[1].(sym); ok {
+				w, _ := kindWidth(sx.k)
+				neg = ex.branch(mkCmp("bvslt", sx.t, mkConst(w, 0)))
+			} else {
+				neg = asInt64(args[1]) < 0
+			}
+			if neg {
 				panic(targetPanic{iface{t: types.Typ[types.String], v: "strings.Builder.Grow: negative count"}})
 			}
-			return nil
+			return nil // capacity is not observable
 		},
 		"(reflect.rtype).Comparable": func(fr *frame, args []value) value {
 			return types.Comparable(args[0].(rtype).t)
